@@ -4,15 +4,16 @@ Prints which checks raise an alarm; an alarm of another property's check has to 
 (the change may break that property too, or the check may be wrong).  Never commits anything to /repo."""
 import subprocess, sys, os, json, re
 ROOT = os.path.dirname(os.path.dirname(os.path.abspath(__file__)))
+REPO = os.environ.get('VERIF_REPO', '/repo')   # a scratch clone may stand in for /repo (with a scratch copy of /verif)
 props = ['C%02d' % i for i in range(1, 21)]
 out_path = os.path.join(ROOT, 'seeded', 'CROSS.md')
 rows = []
 for name in sys.argv[1:]:
     d = os.path.join(ROOT, 'seeded', name)
-    st = subprocess.run(['git', '-C', '/repo', 'status', '--porcelain'], capture_output=True, text=True).stdout.strip()
+    st = subprocess.run(['git', '-C', REPO, 'status', '--porcelain'], capture_output=True, text=True).stdout.strip()
     if st:
         print('refusing: /repo has local modifications'); sys.exit(2)
-    subprocess.run(['git', '-C', '/repo', 'apply', os.path.join(d, 'patch.diff')], check=True)
+    subprocess.run(['git', '-C', REPO, 'apply', os.path.join(d, 'patch.diff')], check=True)
     alarms = {}
     try:
         for p in props:
@@ -23,7 +24,7 @@ for name in sys.argv[1:]:
                 first = [l for l in o.splitlines() if 'failing case' in l or 'no longer checks' in l][:1]
                 alarms[p] = (v[0] if v else 'rc=%d' % r.returncode, first[0][:300] if first else '')
     finally:
-        subprocess.run(['git', '-C', '/repo', 'checkout', '--', '.'], check=True)
+        subprocess.run(['git', '-C', REPO, 'checkout', '--', '.'], check=True)
     rows.append((name, alarms))
     print(name, sorted(alarms), flush=True)
     for p, (v, f) in alarms.items():
